@@ -501,6 +501,9 @@ func (h *histState) doProbe(i int, op *Op) {
 	callLog = nil
 	cs, partial := h.lintCall(i, p, h.regs[op.Reg], "ex", 0, m.Sel)
 	probeLogging = false
+	if cs.Hung {
+		return
+	}
 	clog := callLog
 	callLog = nil
 	curScript = nil
@@ -697,7 +700,7 @@ func (h *histState) doDirect(i int, op *Op) {
 	}
 	cs, _ := h.lintCall(i, a, reg, "ex", 0, m.Sel)
 	h.log.Add("op %d direct obj=%d reg=%d -> %s", i, op.Obj, op.Reg, cs.hash())
-	if cs.Panic != "" {
+	if cs.Panic != "" || cs.Hung {
 		return
 	}
 	h.ctr.inc("direct_ops")
